@@ -17,7 +17,7 @@ LEVEL_TEXT = (
     "Seeded histories of 2-4 requests on one pool against a scripted origin (framings, keep-alive/close, stray and forged bytes after body-less responses, "
     "interim 1xx, delayed tails -- including a late tail that is itself a well-formed HTTP response --, early EOF) with every caller disposal; each delivered byte string is checked against what the origin generated for that very request. Sampling."
 )
-LEVEL_NOTE = "trusted: SimSocket/poll semantics (readability at checkout), the scripted origin; plain HTTP only; histories <= 4 requests"
+LEVEL_NOTE = "trusted: SimSocket/poll semantics (readability at checkout), the scripted origin; plain HTTP and (15 %) direct TLS with the stand-in for ssl.SSLSocket offering pending(); histories <= 4 requests"
 N = {"quick": 40000, "thorough": 600000}
 BUDGET = {"quick": 45, "thorough": 420}
 RULE = (
@@ -28,7 +28,7 @@ ASSUMPTIONS = [
     "stray bytes are generated only after self-delimiting responses (Content-Length, chunked, body-less status): after close-delimited or truncated responses extra bytes are body",
     "the origin answers only complete requests and never pipelines",
 ]
-REQUIRED_PROBES = {"quick": ["resp:stray", "reused_connection", "dirty_checkout_discarded", "forged_offered", "embedded_tail_in_flight_after_early_release"], "thorough": ["resp:stray", "reused_connection", "dirty_checkout_discarded", "forged_offered", "embedded_tail_in_flight_after_early_release"]}
+REQUIRED_PROBES = {"quick": ["resp:stray", "reused_connection", "dirty_checkout_discarded", "forged_offered", "embedded_tail_in_flight_after_early_release", "tls_connection_reused"], "thorough": ["resp:stray", "reused_connection", "dirty_checkout_discarded", "forged_offered", "embedded_tail_in_flight_after_early_release", "tls_connection_reused"]}
 
 FORGED = "HTTP/1.1 200 OK\r\nX-Forged: 1\r\nContent-Length: 9\r\n\r\n[FORGED!]"
 HOWS = ["read_all", "read_k_release", "release_unread", "drain", "close_release", "close_only", "stream_all", "stream_part_release", "drop", "data"]
@@ -36,7 +36,7 @@ HOWS = ["read_all", "read_k_release", "release_unread", "drain", "close_release"
 
 def gen(rng) -> dict:
     maxsize = rng.choice([1, 1, 2])
-    cfg = {"path": "direct", "maxsize": maxsize, "block": False, "retries": rng.choice([0, 1, 2, 3, False]), "preload": rng.random() < 0.3, "timeout": 5.0}
+    cfg = {"path": "direct_tls" if rng.random() < 0.15 else "direct", "maxsize": maxsize, "block": False, "retries": rng.choice([0, 1, 2, 3, False]), "preload": rng.random() < 0.3, "timeout": 5.0}
     nreq = rng.choice([2, 2, 3, 4])
     ops, exchanges = [], []
     live = []
@@ -57,6 +57,8 @@ def gen(rng) -> dict:
         ops.append({"op": "dispose", "of": j, "how": rng.choice(HOWS), "k": rng.choice([1, 3, 10])})
     for i in range(nreq + rng.choice([0, 1, 3])):
         exchanges.append(gen_exchange(rng))
+    if cfg["path"] == "direct_tls":
+        return {"property": ID, "config": cfg, "ops": ops, "exchanges": exchanges, "seg": {"mode": "whole"}}
     return {"property": ID, "config": cfg, "ops": ops, "exchanges": exchanges, "seg": rng.choice([{"mode": "whole"}, {"mode": "whole"}, {"mode": "fixed", "n": rng.choice([1, 5, 64])}, {"mode": "rand", "seed": rng.randrange(1000), "max": 40}])}
 
 
@@ -79,7 +81,9 @@ def gen_exchange(rng) -> dict:
             ex["keepalive"] = False
         elif r < 0.65:
             ex["split"] = [rng.choice([20, 40, 60]), rng.choice([0.5, 3.0])]
-        elif r < 0.75 and ex["framing"] == "cl":
+        elif r < 0.75:
+            if ex["framing"] == "chunked":
+                ex["chunks"] = [100000]  # one chunk, so that the embedded message is contiguous on the wire
             # the tail of the body is itself a complete HTTP response and arrives late: if the caller lets go of this
             # response early, only the connection's own bookkeeping keeps that tail from answering the next request
             ex["body"] = {"tag": ex["body"]["tag"], "embed": True}
@@ -153,6 +157,7 @@ def run(sc: dict) -> Result:
                     delivered[op["id"]] = [op["path"], out.status, bytearray(), out.headers, op["method"], src]
                     if cfg["preload"]:
                         got(op["id"], out.data)
+                out = None  # `live` is the caller's only reference: once the response is disposed and dropped it really is gone
             elif kind == "dispose":
                 r = live.pop(op["of"], None)
                 if r is None:
@@ -192,6 +197,9 @@ def run(sc: dict) -> Result:
                     r = None
                     H.collect()
                 r = None
+                # the caller lets go of the response object after every disposal; make its finalisation happen now, not at some
+                # later collection (it closes the http.client response, which is what guards a half-read connection)
+                H.collect()
         live.clear()
         # ---- oracle
         by_target = {}
@@ -207,7 +215,9 @@ def run(sc: dict) -> Result:
             if tags.get("ambiguous"):
                 res.probes["ambiguous_skipped"] += 1
                 continue
-            if tags.get("dirty_at_write"):
+            if tags.get("dirty_at_write") and not tags.get("opaque"):
+                # (on a TLS carrier the record layer legitimately writes while handshake records are still unread; there the verdict
+                #  rests on the tagged plaintext below)
                 res.bad("dirty_reuse", f"{rid}: response returned from socket {src}, onto which a request was written while unsolicited bytes/EOF were pending")
             if headers.get("X-Forged") is not None:
                 res.bad("cross_talk:forged_response_accepted", f"{rid}: response carries X-Forged (status {status})")
@@ -228,6 +238,8 @@ def run(sc: dict) -> Result:
             res.probes["forged_offered"] += 1
         if any(ex.get("split_embed") is not None for ex in sc["exchanges"][: len(w.requests)]) and any(o["op"] == "dispose" and o["how"] in ("read_k_release", "release_unread", "stream_part_release") for o in sc["ops"]):
             res.probes["embedded_tail_in_flight_after_early_release"] += 1
+        if cfg["path"] == "direct_tls" and len(sids) != len(set(sids)):
+            res.probes["tls_connection_reused"] += 1
         res.faults.update(w.faults_fired)
         cl.pool.close()
         cl = None
@@ -271,7 +283,7 @@ def shrinks(sc):
             c = copy.deepcopy(sc)
             c["ops"][i]["how"] = "read_all"
             yield c
-    for fld, simple in (("maxsize", 1), ("retries", 0), ("preload", False)):
+    for fld, simple in (("path", "direct"), ("maxsize", 1), ("retries", 0), ("preload", False)):
         if sc["config"].get(fld) != simple:
             c = copy.deepcopy(sc)
             c["config"][fld] = simple
